@@ -356,6 +356,10 @@ func (p *parser) primary() *Node {
 	t := p.next()
 	switch t.k {
 	case "id":
+		if t.s == "forall" || t.s == "exists" {
+			p.p--
+			return p.expr()
+		}
 		return &Node{Op: "id", Name: t.s}
 	case "int":
 		return &Node{Op: "int", Name: t.s}
